@@ -5,6 +5,7 @@ Model: `coreResponse` (first block, caching) and `coreRequest`/`handleBlock2`
 -/
 import CoapLite.Lemmas.BlockTransfer
 import CoapLite.Lemmas.Download
+import CoapLite.Lemmas.BlockSession
 import CoapLite.Lemmas.Shape.Block
 import CoapLite.Lemmas.Shape.BlockValue
 import CoapLite.Lemmas.Shape.Request
@@ -135,6 +136,41 @@ theorem whole_body (M : Nat) (cached : Packet) (szx : Nat)
     cached.payload.take (2 ^ (szx + 4)) ++ ((fetchAll M reqs st).1.flatMap (·.1)) = cached.payload := by
   rw [(download_tail M cached szx hcs hck reqs 1 st hst hfu hne hlast hcover).1, Nat.one_mul]
   exact List.take_append_drop _ _
+
+/-- … AT THE LEVEL OF THE HANDLER, with its cache and clock, inside arbitrary traffic: from any
+reachable handler state, ANY monotone history `evs`. The calls for key `κ` are request-side
+follow-ups for blocks `k, k+1, …` up to the last block of the response `cached` that is in effect
+for `κ` at the first of them, at most `ttl` apart. Their reply payloads, concatenated, are exactly
+the rest of the body, and every one is answered from the cache (`ok true`) – whatever other
+transfers do in between. -/
+theorem follow_ups_in_any_history (h : Handler) (t : Nat) (evs : List Ev) (κ : Key) (st : BlockState)
+    (cached : Packet) (szx k : Nat)
+    (hi : Lru.Inv h.cache t) (hm : Mono t evs)
+    (hsp : Spaced h.cache.ttl (evs.filter (fun e => e.key = κ)))
+    (hst : ∀ e ∈ (evs.filter (fun e => e.key = κ)).head?, effective h κ e.now = st)
+    (hreqs : ∀ e ∈ evs.filter (fun e => e.key = κ), e.isResp = false)
+    (hcs : cached.options.Sorted) (hck : ∀ kv ∈ cached.options, kv.1 ≤ 65535)
+    (hc : st.cachedResponse = some cached)
+    (reqs : List Request) (hκ : (evs.filter (fun e => e.key = κ)).map (·.req) = reqs)
+    (hfu : ∀ i (hlt : i < reqs.length), IsFollowUp h.maxSize reqs[i] (k + i) szx)
+    (hne : reqs ≠ [])
+    (hlast : (k + reqs.length - 1) * 2 ^ (szx + 4) < cached.payload.length)
+    (hcover : cached.payload.length ≤ (k + reqs.length) * 2 ^ (szx + 4)) :
+    let obs := ((runEvs h evs).filter (fun o => o.1 = κ)).map (·.2)
+    obs.flatMap (fun o => (o.1.response.map (·.payload)).getD []) = cached.payload.drop (k * 2 ^ (szx + 4)) ∧
+    ∀ o ∈ obs, o.2 = .ok true :=
+  Block.follow_ups_in_any_history h t evs κ st cached szx k hi hm hsp hst hreqs hcs hck hc reqs hκ hfu hne
+    hlast hcover
+
+/-- a follow-up request that carries no payload passes the Block1 stage (the `small` clause of
+`IsFollowUp`) exactly when its own encoded size leaves the 12 reserved bytes free within the budget;
+a request nearly as large as the budget itself is refused by the handler (5.00) before the Block2
+stage – "a budget that leaves room for a block" is read for every message of the transfer -/
+theorem follow_up_small_iff (size M : Nat) :
+    negotiate none size 0 M = .ok none ↔ size + Consts.blockOptionsMaxLength < M := by
+  rw [negotiate_none size 0 M (Nat.zero_le _)]
+  unfold blockBudget
+  omega
 
 /-- … so the next request reaches the application again -/
 theorem after_release_passes (req : Request) (st : BlockState)
